@@ -12,6 +12,11 @@ pub struct ExIoError(std::io::Error);
 #[verifier::external_type_specification]
 pub struct ExSeekFrom(std::io::SeekFrom);
 
+#[verifier::external_type_specification]
+pub struct ExErrorKind(std::io::ErrorKind);
+
+pub assume_specification[<std::io::Error as From<std::io::ErrorKind>>::from](k: std::io::ErrorKind) -> std::io::Error;
+
 /// positional write: overwrite/extend `s` at `p` with `b` (a gap is zero filled)
 pub open spec fn splice(s: Seq<u8>, p: nat, b: Seq<u8>) -> Seq<u8> {
     if b.len() == 0 { s } else {
